@@ -14,6 +14,9 @@ claim("C11", "ESP path simulation of gcsca.Finalize (write-order automaton) + wh
 claim("C13", "ESP path simulation (existence-probe / overwrite-permission gate before endorsement writes; endorsement before manifest) + backward slices of manifest-entry fields",
       "Partial: decides the overwrite gate on every path to an endorsement-file write, that the manifest entry names the file just written and the SHA-384 of the supplied image, and file-before-manifest ordering. The four-way merge keeping path/digest uniqueness over histories is not decided. One known finding (snapshot mode writes <fw>.signed ungated).",
       "DESIGN.md §3 C13")
+claim("C01", "ESP must-pass-through rules on the verification core, the chain check and every entry point enumerated by type + operand identity / access-path rules + cert-table registration shape",
+      "Decides, for all paths of every function that receives roots of trust in verify, gcetcbendorsement and its CLI, that a nil result is only reachable through a successful chain verification (caller's pool and time, nil pool rejected first) and a successful PSS/SHA-256 signature check made with the verified certificate over the very payload bytes that were parsed, before any content is consumed; SNP validator registered as required. It shows no path accepts without the checks, not that the cryptography is strong.",
+      "DESIGN.md §3 C01")
 PENDING = "static rules designed in DESIGN.md §3 but not implemented yet in this revision; not claimed until the rule set lands"
-for p in ["C01","C02","C03","C04","C05","C06","C07","C08","C09","C12","C16","C17","C18","C19","C20"]:
+for p in ["C02","C03","C04","C05","C06","C07","C08","C09","C12","C16","C17","C18","C19","C20"]:
     na(p, PENDING)
